@@ -70,6 +70,10 @@ class XYParametricModel(ParametricModelBaseMixin, XYContainer):
         self._data = np.zeros((2, len(new_x)))
         self._data[0] = new_x
         self._pm_calculation_stale = True
+        # reset member error references to the new x values
+        for _err_dict in self._error_dicts.values():
+            if _err_dict["axis"] == 0:
+                _err_dict["err"].reference = self._get_data_for_axis(0)
         self._clear_total_error_cache()
 
     @property
